@@ -7,7 +7,7 @@ from vf.models.refdevs import OK
 
 PROPERTY = "C05"
 LEVEL = "fault_enumeration"
-BUDGET = {"quick": 2500, "thorough": 200000}
+BUDGET = {"quick": 1500, "thorough": 200000}
 WALL_CAP = {"quick": 200, "thorough": 3300}
 CHUNK = 20
 RULE = ("one evaluation = (model program, fault plan, error strategy, mode) run "
